@@ -8,7 +8,7 @@
     far, so every monitor judges "recorded as ..." against the acknowledged
     store history, exactly as the properties are phrased. *)
 From Coq Require Import List ZArith Bool Arith.
-From FF Require Import Sx StoreModel StoreCheck PreCheck TaskRun.
+From FF Require Import Sx StoreModel StoreCheck PreCheck TaskRun Vars.
 Import ListNotations.
 Local Open Scope Z_scope.
 
@@ -704,6 +704,18 @@ Definition mstep0 (m : mst) (ev : sx) : mst :=
   | L [I 34; I tid; I code] => add_viol m 17 code tid
   | L [I 27; I ins; vars] => set_aux m (aset (m_aux m) (fkey 2 ins) vars)
   | L [I 28] => add_viol m 20 9 0
+  | L [I 35; I g; params] => set_aux m (aset (m_aux m) (fkey 4 g) params)
+  | L [I 37; I ins; vars] => set_aux m (aset (m_aux m) (fkey 5 ins) vars)
+  | L [I 36; I tid; I g; I ins; obs] =>
+      (* C05: a record is created with the DAG's parameters of its task, the instance's variable values substituted *)
+      match aget (I 0) (m_aux m) (fkey 4 g), aget (I 0) (m_aux m) (fkey 5 ins) with
+      | I _, _ | _, I _ => m
+      | params, vars =>
+          match pv_of_sx 12 params, kvs_of_sx vars with
+          | Some p, Some vs => if sx_eqb (sx_of_pv (render vs p)) obs then m else add_viol m 5 6 g
+          | _, _ => add_viol m 5 7 g
+          end
+      end
   | _ => m
   end.
 
